@@ -40,7 +40,10 @@ func init() {
 	}
 }
 
-type c12File struct{ Name, Text string }
+// Mode (updates only): "" / "both" = the edit arrives as didChange, the file is written, didSave
+// repeats it; "change" = didChange only (the buffer now differs from the file on disk);
+// "save" = the file is written with this text and didSave arrives.
+type c12File struct{ Name, Text, Mode string }
 
 // Absolute include paths are spelled with this placeholder in the recorded texts; it is
 // replaced by the case's scratch directory before the text reaches the code under test.
@@ -55,7 +58,8 @@ func c12Texts(v any) []c12File {
 		m, _ := x.(map[string]any)
 		n, _ := m["n"].(string)
 		t, _ := m["t"].(string)
-		out = append(out, c12File{n, t})
+		md, _ := m["mode"].(string)
+		out = append(out, c12File{n, t, md})
 	}
 	return out
 }
@@ -371,16 +375,34 @@ func c12Run(c *Ctx, files, ups []c12File) map[string]any {
 	prevMembers := len(w.VerifMembers())
 	for _, u := range ups {
 		abs := filepath.Join(dir, filepath.FromSlash(u.Name))
-		uj = append(uj, map[string]any{"n": u.Name, "t": u.Text, "c": c12Contrib(dir, u.Name, u.Text)})
+		ue := map[string]any{"n": u.Name, "t": u.Text, "c": c12Contrib(dir, u.Name, u.Text)}
+		if u.Mode != "" && u.Mode != "both" {
+			ue["mode"] = u.Mode
+		}
+		uj = append(uj, ue)
 		st := map[string]any{}
 		text := c12Real(dir, u.Text)
-		w.UpdateFile(abs, text) // didChange
-		st["mid"] = c12View(dir, w)
-		st["midOrder"] = c12Order(dir, w)
-		c12Write(dir, u.Name, text)
-		w.UpdateFile(abs, text) // didSave
-		st["post"] = c12View(dir, w)
-		st["postOrder"] = c12Order(dir, w)
+		switch u.Mode {
+		case "change":
+			w.UpdateFile(abs, text) // didChange; nothing is written
+			st["mid"] = c12View(dir, w)
+			st["midOrder"] = c12Order(dir, w)
+			st["post"], st["postOrder"] = st["mid"], st["midOrder"]
+		case "save":
+			c12Write(dir, u.Name, text)
+			w.UpdateFile(abs, text) // didSave
+			st["post"] = c12View(dir, w)
+			st["postOrder"] = c12Order(dir, w)
+			st["mid"], st["midOrder"] = st["post"], st["postOrder"]
+		default:
+			w.UpdateFile(abs, text) // didChange
+			st["mid"] = c12View(dir, w)
+			st["midOrder"] = c12Order(dir, w)
+			c12Write(dir, u.Name, text)
+			w.UpdateFile(abs, text) // didSave
+			st["post"] = c12View(dir, w)
+			st["postOrder"] = c12Order(dir, w)
+		}
 		st["fresh"] = c12Fresh(dir)
 		steps = append(steps, st)
 		if c.Stats != nil {
@@ -395,6 +417,17 @@ func c12Run(c *Ctx, files, ups []c12File) map[string]any {
 	}
 	impl["steps"] = steps
 	return map[string]any{"cfg": cfg, "limit": 50, "files": fj, "ups": uj, "impl": impl}
+}
+
+// c12DropIncludes removes every include line of a journal text.
+func c12DropIncludes(t string) string {
+	var out []string
+	for _, l := range strings.Split(t, "\n") {
+		if !strings.HasPrefix(l, "include ") {
+			out = append(out, l)
+		}
+	}
+	return strings.Join(out, "\n")
 }
 
 // ---------------------------------------------------------------- generator
@@ -596,7 +629,7 @@ func genC12Workspaces(c *Ctx, div int, emit func(files []c12File, ups []c12File)
 				}
 			}
 			r.Shuffle(len(ts), func(a, b int) { ts[a], ts[b] = ts[b], ts[a] })
-			files = append(files, c12File{n, c12Journal(r, dir, n, ts, r.IntN(4))})
+			files = append(files, c12File{Name: n, Text: c12Journal(r, dir, n, ts, r.IntN(4))})
 		}
 		cur := map[string][]string{}
 		var ups []c12File
@@ -636,7 +669,38 @@ func genC12Workspaces(c *Ctx, div int, emit func(files []c12File, ups []c12File)
 				cur[n] = ts
 				c.Count("update.includes")
 			}
-			ups = append(ups, c12File{n, text})
+			ups = append(ups, c12File{Name: n, Text: text})
+		}
+		// unsaved edits: an update reaches the workspace as didChange only, other updates
+		// follow while the buffer differs from the file, the save comes later
+		if len(ups) > 0 && r.IntN(3) == 0 {
+			k := r.IntN(len(ups))
+			ups[k].Mode = "change"
+			at := k + 1 + r.IntN(len(ups)-k)
+			sv := c12File{Name: ups[k].Name, Text: ups[k].Text, Mode: "save"}
+			if r.IntN(4) == 0 {
+				// in between the include line of the edited file is cut from a file that
+				// includes it and pasted back
+				for i, f := range files {
+					if f.Name != ups[k].Name && strings.Contains(f.Text, "include ") {
+						cut := c12File{Name: f.Name, Text: c12DropIncludes(f.Text)}
+						back := c12File{Name: f.Name, Text: f.Text}
+						_ = i
+						mid := append([]c12File{cut, back}, ups[k+1:at]...)
+						ups = append(append(append([]c12File{}, ups[:k+1]...), mid...), append([]c12File{sv}, ups[at:]...)...)
+						sv.Name = ""
+						c.Count("update.unsaved.cut-paste")
+						break
+					}
+				}
+			}
+			if sv.Name != "" {
+				ups = append(append(append([]c12File{}, ups[:at]...), sv), ups[at:]...)
+			}
+			c.Count("update.unsaved")
+		}
+		if len(ups) > 8 {
+			ups = ups[:8]
 		}
 		emit(files, ups)
 	}
